@@ -13,7 +13,9 @@ func register(id string, f func() *fw.Prop) { registry[id] = f }
 
 // gadget-level checks have small cases: a case running for minutes means runaway values
 // (e.g. a corrupted shared constant); its verdict is inconclusive and the run goes on.
-var shortCase = map[string]bool{"C07": true, "C08": true, "C09": true, "C10": true, "C11": true, "C12": true, "C15": true, "C16": true, "C18": true, "C19": true}
+// (C07, C18, C19 also build and run the race-detector binary in one case, minutes under load:
+// they keep the long watchdog.)
+var shortCase = map[string]bool{"C08": true, "C09": true, "C10": true, "C11": true, "C12": true, "C15": true, "C16": true}
 
 func Get(id string) *fw.Prop {
 	if f, ok := registry[id]; ok {
